@@ -101,6 +101,15 @@ Theorem C01_exit_value_accumulates : forall (f : N -> cnt) (L : list N),
 Proof. exact exit_value_zero_iff. Qed.
 Print Assumptions C01_exit_value_accumulates.
 
+(* a flaky program separates the property from two weaker readings: neither the last nor the first repetition alone decides *)
+Theorem C01_exit_last_only_refuted : ~ exit_last_only_stmt.
+Proof. exact exit_last_only_refuted. Qed.
+Print Assumptions C01_exit_last_only_refuted.
+
+Theorem C01_exit_first_only_refuted : ~ exit_first_only_stmt.
+Proof. exact exit_first_only_refuted. Qed.
+Print Assumptions C01_exit_first_only_refuted.
+
 (* stated limit: without the bound the size_t -> int conversion wraps (2^32 failures return 0) *)
 Theorem C01_exit_value_wrap_refuted : ~ (forall ft fe : N, exit_value ft fe = 0 -> ft = 0%N).
 Proof. exact exit_value_wrap_refuted. Qed.
